@@ -41,6 +41,9 @@ ASSUMPTIONS = [
     'the produced sequence observable and is checked exactly',
     'an attribute of unknown type must be rejected with a MetaException (or subclass) either when the class is defined or when '
     'an instance is created without a value for it; creation calls that pass a value for that attribute are not generated',
+    '"the metamodel\'s generator" is the object m.id_generator holds when the instance is created (family D replaces it '
+    'between creations) and "attribute order"/"every non-referential attribute" refer to the class as it is at that moment '
+    '(family D appends, inserts and deletes attributes between creations); ids of different generators may coincide by design',
     'keyword arguments are spelled as declared (other spellings: C10); the value read back for a referential attribute is '
     'compared only when the call supplied the id of an existing instance',
 ]
@@ -717,6 +720,168 @@ def _two(sub, case):
     return None
 
 
+
+# ---------------------------------------------------------------------------
+# family D: creations interleaved with edits of the class and replacement of the metamodel's generator
+# ---------------------------------------------------------------------------
+
+D_BASE = [('Id', 'unique_id'), ('S', 'string')]
+D_EDITS = [['append', 'N', 'integer'], ['append', 'U', 'bogus'], ['append', 'Id2', 'UNIQUE_ID'],
+           ['insert', 0, 'B', 'boolean'], ['insert', 1, 'R', 'Real'], ['insert', 0, 'V', 'void'],
+           ['delete', 'S'], ['delete', 'Id'], ['delete', 'U'], ['delete', 'V'], ['delete', 'B']]
+D_SWAPS = ['user', 'int']          # the replacement generator (a fresh one)
+D_MAX_EDITS, D_MAX_SWAPS = 3, 2
+
+
+class DModel(explorer.Model):
+    limit_s = 10.0
+
+    def __init__(self, kind, max_news):
+        self.kind = kind
+        self.max_news = max_news
+
+    def case(self, hist, op):
+        return dict(part='live-edit', gen=self.kind, max_news=self.max_news, hist=hist, op=op)
+
+    def build(self, hist):
+        w = BWorld()
+        w.m, w.gen = make_metamodel(self.kind)
+        w.mc = w.m.define_class('K', list(D_BASE))
+        w.other = w.m.define_class('Other', [('Id', 'unique_id')])
+        w.attrs = list(D_BASE)
+        w.ref = GenRef(self.kind, w.gen)
+        w.old = []                 # replaced generators with the value their peek showed at replacement
+        w.news = w.edits = w.swaps = 0
+        w.explicit = 0
+        for op in hist:
+            self.step(w, op)
+        return w
+
+    def enabled(self, w):
+        ops = []
+        if w.news < self.max_news:
+            ops += [['new', 'K', 'none'], ['new', 'K', 'pos'], ['new', 'K', 'kw'], ['new', 'Other', 'none']]
+        if w.edits < D_MAX_EDITS:
+            names = [n for n, _ in w.attrs]
+            for e in D_EDITS:
+                if e[0] == 'delete' and e[1] not in names:
+                    continue
+                if e[0] != 'delete' and e[-2] in names:
+                    continue
+                ops.append(list(e))
+        if w.swaps < D_MAX_SWAPS:
+            for k in D_SWAPS:
+                ops.append(['swap', k])
+        return ops
+
+    def step(self, w, op):
+        import xtuml
+        name = op[0]
+        if name == 'append':
+            w.edits += 1
+            w.mc.append_attribute(op[1], op[2])
+            w.attrs.append((op[1], op[2]))
+            return []
+        if name == 'insert':
+            w.edits += 1
+            w.mc.insert_attribute(op[1], op[2], op[3])
+            w.attrs.insert(op[1], (op[2], op[3]))
+            return []
+        if name == 'delete':
+            w.edits += 1
+            w.mc.delete_attribute(op[1])
+            w.attrs = [a for a in w.attrs if a[0] != op[1]]
+            return []
+        if name == 'swap':
+            w.swaps += 1
+            old, oldref = w.gen, w.ref
+            w.old.append((old, old.peek()))
+            new = make_metamodel(op[1])[1]
+            w.m.id_generator = new
+            w.gen = new
+            w.ref = GenRef(op[1], new)
+            # values of different generators may coincide by design (1, 2, 3 again): no-repetition is judged per generator
+            return []
+        # creation
+        _, cls, how = op
+        w.news += 1
+        attrs = w.attrs if cls == 'K' else [('Id', 'unique_id')]
+        unknown = [t for _, t in attrs if t.upper() not in TYPES]
+        args, kwargs, explicit = [], {}, {}
+        if how == 'pos' and attrs:
+            ty = attrs[0][1].upper()
+            if ty in POS:
+                w.explicit += 1
+                v = POS[ty][0] if ty != 'UNIQUE_ID' else 700000 + w.explicit
+                args.append(v)
+                explicit[0] = v
+        if how == 'kw' and attrs:
+            i = len(attrs) - 1
+            ty = attrs[i][1].upper()
+            if ty in KW:
+                w.explicit += 1
+                v = KW[ty][0] if ty != 'UNIQUE_ID' else 800000 + w.explicit
+                kwargs[attrs[i][0]] = v
+                explicit[i] = v
+        try:
+            inst = w.m.new(cls, *args, **kwargs)
+        except xtuml.MetaException as e:
+            if unknown:
+                # which generator values a rejected creation drew is left open
+                n_ids = sum(1 for _, t in attrs if t.upper() == 'UNIQUE_ID')
+                w.ref.slack = getattr(w.ref, 'slack', 0) + n_ids
+                w.ref.pending = None
+                return []
+            return [('live-edit:rejected', 'creation raised %s: %s; the attributes are %r' % (type(e).__name__, e, attrs), None,
+                     type(e).__name__)]
+        if unknown:
+            return [('live-edit:unknown-type-accepted', 'creation succeeded although the class has the attribute types %r' %
+                     (unknown,), 'a metamodel exception', 'an instance')]
+        out = judge_instance(inst, [(n, t.upper(), 'plain') for n, t in attrs], explicit, w.ref)
+        # a replaced generator is no longer the metamodel's: creations must not draw from it
+        for g, shown in w.old:
+            if g is not w.gen and g.peek() != shown:
+                out.append(('live-edit:drew-from-replaced-generator', 'the generator replaced earlier advanced from %r to %r' %
+                            (shown, g.peek()), shown, g.peek()))
+        return [('live-edit:' + k.replace('new:', ''), m, e, o) for k, m, e, o in out]
+
+    def apply(self, ctx, w, op, hist):
+        ctx.count('traces')
+        ctx.count('live_edit_steps')
+        problems = self.step(w, op)
+        if op[0] == 'new':
+            ctx.count('news')
+            if w.edits or w.swaps:
+                ctx.count('creations_after_live_edit')
+            ctx.distinct('outcomes', ('live', self.kind, tuple(t.upper() for _, t in w.attrs), op[2], bool(w.swaps), bool(problems)))
+        for kind, msg, exp, obs in problems[:1]:
+            ctx.violation('c19:' + kind, self.case(hist, op), 'generator %s, history %s, then %s: %s' %
+                          (self.kind, hist, op, msg), exp, obs, unit_test=unit_test_live(self, hist, op))
+        return not problems
+
+    def probes(self, ctx, w, hist):
+        pass
+
+    def canon(self, w):
+        return (tuple(w.attrs), w.news, w.edits, w.swaps, w.ref.kind, w.ref.pos, getattr(w.ref, 'slack', 0),
+                tuple(type(g).__name__ for g, _ in w.old))
+
+
+def unit_test_live(model, hist, op):
+    lines = ['import xtuml', '# metamodel with generator %r, class K %r and class Other (Id); steps:' % (model.kind, D_BASE)]
+    for o in hist:
+        lines.append('#   %r' % (o,))
+    lines.append('#   %r   <- failing step' % (op,))
+    lines.append("# append/insert/delete = K's append_attribute/insert_attribute/delete_attribute; swap = m.id_generator = <fresh generator>")
+    lines.append("# new K pos/kw = m.new('K', <value for the first attribute>) / m.new('K', <last attribute>=<value>)")
+    return '\n'.join(lines)
+
+
+def run_live(sub, task):
+    kind, max_news = task
+    res = explorer.bfs(sub, DModel(kind, max_news), chunk=1 << 30, label='live-' + kind)
+    return dict(generator=kind, live_edit=True, states=res['states'], depth=res['depth'], closed=res['closed'])
+
 # ---------------------------------------------------------------------------
 # framework entry points
 # ---------------------------------------------------------------------------
@@ -780,6 +945,12 @@ def run(ctx):
             for prefix in itertools.product(range(len(C_OPS)), repeat=plen):
                 ctasks.append((pair, prefix, d))
     ctx.pmap(run_two_generators, ctasks, chunk=4)
+    # -- D: creations interleaved with live edits of the class and replacement of the generator
+    for res in ctx.pmap(run_live, [(kind, 3 if ctx.quick else 4) for kind in ('int', 'user', 'recuuid')], chunk=1):
+        ctx.notes['live-' + res['generator']] = dict(states=res['states'], depth=res['depth'], closed=res['closed'])
+        print('  live-edit %-8s states=%d depth=%d closed=%s t=%.0fs' % (res['generator'], res['states'], res['depth'],
+                                                                         res['closed'], ctx.elapsed()), flush=True)
+    ctx.require(ctx.n('creations_after_live_edit') >= 1000, 'too few creations after a live edit (%d)' % ctx.n('creations_after_live_edit'))
     # vacuity guards
     ctx.require(ctx.n('creation_cases') >= (100000 if ctx.quick else 500000),
                 'too few creation cases (%d)' % ctx.n('creation_cases'))
@@ -801,6 +972,8 @@ def replay(ctx, case):
         explorer.replay_case(ctx, GenModel(case['gen'], case['cap']), case['hist'], case.get('op'))
     elif part == 'two-generators':
         run_two(ctx, case)
+    elif part == 'live-edit':
+        explorer.replay_case(ctx, DModel(case['gen'], case['max_news']), case['hist'], case.get('op'))
     else:
         raise core.HarnessError('C19: unknown replay case %r' % (case,))
 
@@ -824,6 +997,8 @@ def coverage(ctx):
         histories=dict((k, v) for k, v in ctx.notes.items() if isinstance(v, dict)),
         history_states=ctx.n('states'),
         two_generator_sequences=ctx.n('two_generator_sequences'),
+        live_edit=dict(steps=ctx.n('live_edit_steps'), creations_after_an_edit=ctx.n('creations_after_live_edit'),
+                       edits=D_EDITS, max_edits=D_MAX_EDITS, replacement_generators=D_SWAPS, max_replacements=D_MAX_SWAPS),
         bounds=dict(attribute_lists='length <= 3 over 5 core types%s' % ('' if ctx.quick else ' (length 4 with two spellings, '
                                                                           'two generators, one route)'),
                     spellings='lower / UPPER / Capitalised' + (' (uniform and two rotations)' if ctx.quick else ' (every combination)'),
